@@ -29,6 +29,9 @@ EXPLANATION += (
     " ADDED: C03.4 also requires every inline / crossline count that reaches a count or size field of the fresh header to come from the output geometry (the conversion window), not from the source axes. C03.5 additionally: reader-derived writers (cropper, re-blocker) emit the arrays in header-word table order (iterating the reader's stored-key list, which must hold one key per stored array - duplicates of another header word excluded - not a lazily filled memo dict whose order is the call history), take the full grid arrays (include_padding / grid reshape) rather than the mask-compacted ones, `x += pad` accumulations and companion writes in the same iteration are summed, and a padding gate on the SOURCE's version is evaluated on both outcomes against the stride of the version the OUTPUT is stamped with. C03.8: bytes 28:32 are decoded only under the 0.1.6 unit gate (or on the 2D branch) and a copied header whose version stamp is replaced also rewrites them. C03.9: the cropper's aligned upper bounds are provably within the source axis on every path (clip semantics, conditional expressions forked)."
 )
 EXPLANATION += (
+    ' ADDED (round 4): C03.7 also covers the STRING form of a version: major / minor / patch are int() of the first three dot-separated fields of one split, or - when a regular expression is used - capturing groups that are complete digit runs, decided on the syntax tree of the pattern (re._parser): a lazy or bounded digit group followed by something that can match a digit reads 0.2.10 as 0.2.1 and stamps / gates on the wrong version. The regex rule carries a positive and a negative control, since the pinned tree splits the string.'
+)
+EXPLANATION += (
     ' ADDED (session 4): C03.11 - reader wiring: each size slot of the header (blocks of header, disk blocks of data, bytes per header array, number of arrays) is followed by def-use to the one reader attribute that holds it; the offset given to stored header array j in get_header_dict normalises to 512*... = DISK*(header blocks + data blocks) + j*stride with every parameter bound at the call site to the attribute of that role and j counting the arrays located so far (list length or counter); data_start_bytes = DISK * header blocks. C03.12 - writers that copy the source header keep its length (rule of C10.9 for every writer).'
 )
 EXPLANATION += (
